@@ -6,7 +6,7 @@ from analysis.flow import (DefUse, backward, find_calls, callee_is, callee_ends,
 from analysis.linear import Linear
 from analysis.atomics import is_atomic_method, receiver_key
 from analysis.table import describe_val, PathWalker
-from rules.common import need
+from rules.common import need, inl, family, uncovered_roots, unit, closure_with
 
 POOL = "co_pool::CoroutinePool"
 SCHED = "scheduler::Scheduler"
@@ -39,24 +39,47 @@ def derives_from_call(b, du, op, at, pred):
 # ---------------------------------------------------------------- C01 / C13: try_run
 def run_once_rule(run, f, rid, settle_rid=None, skip_rid=None):
     run.rule(rid, "try_run: a popped task is run exactly once, or skipped only when CANCEL_TASKS contains its own id", floor=2, template="T2 + path count")
-    b = need(run, rid, f, POOL + "::try_run::{closure#0}")
     outer = need(run, rid, f, POOL + "::try_run")
-    if b is None or outer is None:
+    if outer is None:
         return
+    # try_run as one unit: the body may be a closure handed to Option::map, straight-line code after `pop()?`, or a helper
+    b = inl(f, outer)
     cfg = Cfg(b)
     du = DefUse(b)
-    # the closure is the argument of Option::map on task_queue.pop()
-    odu = DefUse(outer)
-    pops = find_calls(outer, callee_is(OLQ + "::pop"))
-    maps = find_calls(outer, callee_is("std::option::Option::map"))
-    okwire = len(pops) == 1 and len(maps) == 1 and any(x == pops[0][0] for (x, _t) in backward(outer, maps[0][1]["args"][0], odu, at=(maps[0][0], "term")).calls)
-    fc = field_chain(outer, odu, pops[0][1]["args"][0]) if pops else []
-    if okwire and fc and fc[-1] == "task_queue":
-        run.ok(rid, "try_run/pop-map", "task_queue.pop().map(closure)")
-    else:
-        run.fail(rid, "try_run/pop-map", outer.loc(), "try_run must hand the task popped from self.task_queue to its body exactly once (Option::map)")
+    pops = [(x, t) for (x, t) in find_calls(b, callee_is(OLQ + "::pop")) if (field_chain(b, du, t["args"][0]) or [""])[-1] == "task_queue"]
     runs = find_calls(b, callee_is("co_pool::task::Task::run"))
     ids = find_calls(b, callee_is("co_pool::task::Task::id"))
+    from_pop = lambda op, at: bool(pops) and any(x == pops[0][0] for (x, _t) in backward(b, op, du, at=at).calls)
+    # edges on which the pop is known to have produced nothing (None arm of a match on it, Break arm of `pop()?`)
+    no_task = set()
+    for blk in b.blocks:
+        if blk["term"]["k"] != "switch" or not pops:
+            continue
+        si = switch_info(b, du, blk["id"])
+        if si["kind"] != "discr" or si["place"]["proj"]:
+            continue
+        if not from_pop({"k": "copy", "p": si["place"]}, (blk["id"], "term")):
+            continue
+        adt = norm(si["adt"] or "")
+        if adt.endswith("option::Option") and "None" in si["arms"]:
+            no_task.add(si["arms"]["None"])
+        elif adt.endswith("ControlFlow") and "Break" in si["arms"]:
+            no_task.add(si["arms"]["Break"])
+    wire = []
+    if len(pops) != 1 or cfg.in_cycle(pops[0][0]):
+        wire.append("expected exactly one task_queue.pop() outside any loop (found %d)" % len(pops))
+    elif len(ids) < 1 or len(runs) != 1:
+        wire.append("the popped task's id / run sites were not found")
+    else:
+        if not from_pop(runs[0][1]["args"][0], (runs[0][0], "term")):
+            wire.append("Task::run is not invoked on the task that was popped")
+        first_id = [x for (x, _t) in ids if all(cfg.dominates(x, y) or x == y for (y, _t2) in ids)]
+        if not first_id or not no_task or not cfg.must_pass(cfg.after(pops[0][0]), set(first_id) | no_task)[0]:
+            wire.append("a popped task can be dropped without entering the run-or-skip body")
+    if not wire:
+        run.ok(rid, "try_run/pop-map", "the task popped from task_queue (and only it) enters the body; the empty-queue edge returns")
+    else:
+        run.fail(rid, "try_run/pop-map", outer.loc(), "try_run must hand the task popped from self.task_queue to its body exactly once: " + "; ".join(wire))
     cont = calls_on_static(b, du, "dashmap::DashSet::contains", CANCEL_TASKS)
     why = []
     tb = None
@@ -74,14 +97,12 @@ def run_once_rule(run, f, rid, settle_rid=None, skip_rid=None):
             why.append("result of CANCEL_TASKS.contains is not branched on")
         else:
             tb, fb, _sw = br
-            okp, _ = cfg.must_pass([0], [runs[0][0], tb])
+            okp, _ = cfg.must_pass([0], {runs[0][0], tb} | no_task)
             if not okp:
                 why.append("a path returns without running the task although it was not cancelled")
             if runs[0][0] in cfg.reachable({tb}):
                 why.append("a task found in CANCEL_TASKS can still be run")
-            # receiver of run is the closure's task parameter
-            rl = backward(b, runs[0][1]["args"][0], du, at=(runs[0][0], "term"), through_calls="none")
-            if not any(b.name_of(p) == "task" for p in rl.params):
+            if not from_pop(runs[0][1]["args"][0], (runs[0][0], "term")):
                 why.append("Task::run is not invoked on the popped task")
     if why:
         run.fail(rid, "try_run/run-or-cancelled", b.loc(), "; ".join(why))
@@ -101,8 +122,9 @@ def run_once_rule(run, f, rid, settle_rid=None, skip_rid=None):
             run.fail(skip_rid, "try_run/consume-own-request", b.loc(), "the skip path must remove exactly the popped task's id from CANCEL_TASKS (remove sites %d, on skip path keyed by own id %d, on every skip path %s)" % (len(rem), len(good), okp))
         # who else removes from CANCEL_TASKS
         others = []
+        fam = {c.path for c in family(f, outer)}
         for ob in f.bodies:
-            if ob.kind == "Promoted" or ob.path == b.path:
+            if ob.kind == "Promoted" or ob.path in fam:
                 continue
             d2 = None
             for (x, t) in ob.calls():
@@ -147,7 +169,7 @@ def run_once_rule(run, f, rid, settle_rid=None, skip_rid=None):
 
 def publish_rule(run, f, rid):
     run.rule(rid, "result is published before the waiter is woken; results are keyed by the task's own id and hold its own outcome", floor=4, template="T3/T5")
-    b = need(run, rid, f, POOL + "::try_run::{closure#0}")
+    b = unit(run, rid, f, POOL + "::try_run")
     if b is not None:
         cfg = Cfg(b)
         du = DefUse(b)
@@ -269,7 +291,7 @@ def recheck_rule(run, f, rid):
 
 def affinity_rule(run, f, rid):
     run.rule(rid, "the pool that stores a task's result is the pool its join handle waits on", floor=1, template="T9/T5")
-    b = need(run, rid, f, POOL + "::try_run::{closure#0}")
+    b = unit(run, rid, f, POOL + "::try_run")
     pop = need(run, rid, f, OLQ + "::pop")
     if b is None or pop is None:
         return
@@ -386,8 +408,12 @@ def submit_rule(run, f, rid):
 
 def keep_scheduling_rule(run, f, rid):
     run.rule(rid, "the event-loop thread leaves its scheduling loop only when the pool is not Running, its queues are empty and no worker is alive", floor=2, template="T2")
-    b = need(run, rid, f, LOOP + "::start::{closure#0}")
-    if b is not None:
+    b = closure_with(f, LOOP + "::start", lambda c: any(norm(t.get("callee") or "") == LOOP + "::wait_event" for (_x, t) in c.calls()))
+    if b is None:
+        run.missing(rid, LOOP + "::start::{closure calling wait_event}")
+    else:
+        run.fn(b)
+        b = inl(f, b)
         cfg = Cfg(b)
         du = DefUse(b)
         we = find_calls(b, callee_is(LOOP + "::wait_event"))
@@ -486,7 +512,9 @@ def running_rule(run, f, rid_inc, rid_dec, rid_rmw):
                 if receiver_key(body, du, t["args"][0]) == key:
                     writers.setdefault(body.npath, []).append((bid, t, c.rsplit("::", 1)[1]))
     allowed = {POOL + "::submit_co::{closure#1}", POOL + "::submit_co::{closure#0}", POOL + "::submit_co", "<co_pool::creator::CoroutineCreator as coroutine::listener::Listener>::on_state_changed"}
-    extra = set(writers) - allowed
+    # a writer outside the allowed set is fine when it is only ever entered from the allowed functions (a helper cut
+    # out of them); what matters is from which entry points running can be changed
+    extra = {w for w in set(writers) - allowed if uncovered_roots(f, w, allowed)}
     if extra:
         run.fail(rid_dec, "running/writers", "core/src/co_pool", "running is written outside submit_co and CoroutineCreator: %s" % sorted(extra))
     for fn, ws in writers.items():
@@ -531,9 +559,15 @@ def running_rule(run, f, rid_inc, rid_dec, rid_rmw):
     # decrement table
     b = need(run, rid_dec, f, "<co_pool::creator::CoroutineCreator as coroutine::listener::Listener>::on_state_changed")
     if b is not None:
+        raw = b
+        b = inl(f, b)      # helpers cut out of the listener are part of it
         cfg = Cfg(b)
         du = DefUse(b)
-        ws = writers.get(b.npath, [])
+        ws = []
+        for bid, t in b.calls():
+            c = norm(t.get("callee") or "")
+            if c.startswith("std::sync::atomic::Atomic::") and c.rsplit("::", 1)[1] not in ("load", "new") and receiver_key(b, du, t["args"][0]) == key:
+                ws.append((bid, t, c.rsplit("::", 1)[1]))
         grow = [x for (x, t) in find_calls(b, callee_is(POOL + "::try_grow"))]
         # the match on new_state
         sw = None
@@ -567,7 +601,9 @@ def running_rule(run, f, rid_inc, rid_dec, rid_rmw):
                     run.fail(rid_dec, "on_state_changed/%s/non-saturating" % v, b.loc(decs[0][1]["line"]), "running is decremented with a plain fetch_sub: a coroutine that was never counted (submitted through the scheduler interface, or stolen before it was counted) finishing at running == 0 wraps the counter to usize::MAX", counts_as_instance=False)
                 if okd and decs[0][2] == "fetch_update":
                     amt = None
-                    for c in f.closures_of(b):
+                    for c in family(f, raw):
+                        if c.kind != "Closure":
+                            continue
                         for (_x, tt) in c.calls():
                             if norm(tt.get("callee") or "").endswith(("saturating_sub", "checked_sub")):
                                 amt = op_const(tt["args"][1])
